@@ -1365,6 +1365,42 @@ theorem itemsDescOK_of_match (arch : Nat) : ∀ (items : List Item) (descs : Lis
         have := hok.1
         simpa [devsDescOK, recDevsOf, List.all_map, Function.comp_def] using this
 
+/-- every `field_description` message written carries a valid base type (as the decoder reads it) -/
+def allDescsValid (ms : List WMsg) : Bool :=
+  ms.all fun m => m.num != mesgNumFieldDescription || validBaseType (lastVal (readFields (wireFields m)) 2)
+
+/-- "every field description written carries a valid base type" suffices for `msgsDescOK` -/
+theorem msgsDescOK_of_allValid : ∀ (ms : List WMsg) (descs : List Desc), (∀ d ∈ descs, validBaseType d.2.2 = true) →
+    allDescsValid ms = true → msgsDescOK descs ms = true := by
+  intro ms
+  induction ms with
+  | nil => intro _ _ _; rfl
+  | cons m ms ih =>
+    intro descs hd hall
+    simp only [allDescsValid, List.all_cons, Bool.and_eq_true] at hall
+    have hd' : ∀ d ∈ noteDesc descs m.num (wireFields m), validBaseType d.2.2 = true := by
+      intro d hmem
+      unfold noteDesc at hmem
+      split at hmem
+      · rename_i h206
+        rcases List.mem_append.mp hmem with h | h
+        · exact hd d h
+        · simp only [List.mem_singleton] at h
+          subst h
+          have := hall.1
+          simpa [h206] using this
+      · exact hd d hmem
+    simp only [msgsDescOK, Bool.and_eq_true]
+    refine ⟨?_, ih _ hd' (by simpa [allDescsValid] using hall.2)⟩
+    simp only [devsDescOK, List.all_eq_true, Bool.not_eq_true']
+    intro d _
+    unfold descInvalid
+    cases hf : findDesc (noteDesc descs m.num (wireFields m)) ⟨d.num, d.data.length % 256, d.idx⟩ with
+    | none => rfl
+    | some t =>
+      have := hd' t (List.mem_of_find?_eq_some hf)
+      simp [this]
+
 /-- ALL MESSAGES OF A SEQUENCE, on the decoder: the round trip of `encodeMsgs_roundtripF` under the one condition the field
 descriptions add (`msgsDescOK`: no developer field is written under a field description with an invalid base type) -/
 theorem encodeMsgs_roundtrip (tsKnown : Nat → Bool) (o : Opts) (ha : o.arch = 0 ∨ o.arch = 1) (ms : List WMsg)
